@@ -143,6 +143,23 @@ class ObjectRetrieval(object):
 
         fname = local_path.parts[0]
         sub_path = LocalDepPathUtils.tail(local_path)
+        if "." in fname:
+            # The full name of an object that an import statement binds in the body of a function: it is looked up
+            # from the root, whatever the names of the module of the function.
+            names = fname.split(".")
+            try:
+                root_mod: Optional[ModuleType] = importlib.import_module(names[0])
+            except ModuleNotFoundError:
+                root_mod = None
+            res: ObjectRetrievalType = None
+            if root_mod is not None:
+                res = cls._retrieve_object_rec(
+                    LocalDepPath(PurePosixPath(*(names[1:] + list(sub_path.parts)))),
+                    root_mod,
+                    gctx,
+                )
+            gctx.cached_objects[obj_key] = res
+            return res
         if fname not in context_mod.__dict__:
             # In some cases (old versions of jupyter) the module is not listed
             # -> try to load it from the root
